@@ -1516,7 +1516,7 @@ impl Vm {
     }
 
     // set the current current instruction pointer. check for overflow
-    if self.fiber.frames().len() == MAX_FRAME_SIZE {
+    if self.fiber.frames().len() >= MAX_FRAME_SIZE {
       return self.runtime_error_from_str(self.builtin.errors.runtime, "Stack overflow.");
     }
 
@@ -1532,7 +1532,7 @@ impl Vm {
     }
 
     // set the current current instruction pointer. check for overflow
-    if self.fiber.frames().len() == MAX_FRAME_SIZE {
+    if self.fiber.frames().len() >= MAX_FRAME_SIZE {
       return self.runtime_error_from_str(self.builtin.errors.runtime, "Stack overflow.");
     }
 
